@@ -522,6 +522,8 @@ func runC13(c *Ctx) {
 		checkNoSwallow(c, "errors.no-success-on-failure", p.Func(id), purgeIO, []string{"ErrNotExists"})
 	}
 	checkGenericErrorDiscipline(c, "pkg/core")
+	checkLeafSizeFromDescriptor(c, "index.leaf-size-from-descriptor", "pkg/core", "pkg/fuse")
+	checkChunkLimitCountsSentKeys(c, "index.chunk-limit-counts-sent-keys")
 }
 
 func runC14(c *Ctx) {
@@ -808,6 +810,8 @@ func runC14(c *Ctx) {
 		c.fail("loopvar", "instances", "-", "expected at least 2 asynchronous closures inside loops in pkg/core, found "+itoa(n))
 	}
 	checkGenericErrorDiscipline(c, "pkg/core")
+	checkLeafSizeFromDescriptor(c, "index.leaf-size-from-descriptor", "pkg/core", "pkg/fuse")
+	checkChunkLimitCountsSentKeys(c, "index.chunk-limit-counts-sent-keys")
 }
 
 func firstCallArgRecv(f *FuncInfo, callee string) ast.Expr {
